@@ -15,6 +15,7 @@
 
 use cfb_verif_harness::build::build_image;
 use cfb_verif_harness::dict::Dict;
+use cfb_verif_harness::indep;
 use serde_json::{json, Value};
 use std::alloc::{GlobalAlloc, Layout, System};
 use std::io::{BufRead, BufWriter, Cursor, Read, Seek, SeekFrom, Write};
@@ -432,7 +433,14 @@ fn main() {
         }
         CASE_START_MS.store(0, Ordering::SeqCst);
         let peak = PEAK.load(Ordering::SeqCst).saturating_sub(base);
-        let ev = json!({"ev": "case", "hi": hi, "oi": 0, "id": case["id"], "mode": mode, "input": bytes.len(),
+        // raw decode of the input (tables only), for the open-path model's verdict (Trace_Open);
+        // taken after the measurement so that it does not count towards the peak
+        let img = if mode == "read" && bytes.len() <= 65536 && case["img"].as_bool().unwrap_or(true) {
+            catch_unwind(AssertUnwindSafe(|| indep::decode(&bytes, &dict, &indep::Options { max_runs: 0, sectors: false }))).unwrap_or(json!({}))
+        } else {
+            json!({})
+        };
+        let ev = json!({"ev": "case", "hi": hi, "oi": 0, "id": case["id"], "mode": mode, "input": bytes.len(), "img": img,
                         "opened": opened, "panicked": !panic.is_null(),
                         "panic": if panic.is_null() { json!("") } else { json!(format!("{}: {}", panic["where"].as_str().unwrap_or(""), panic["msg"].as_str().unwrap_or(""))) },
                         "peak": peak,
